@@ -107,7 +107,7 @@ def run(vc):
               "scenarios (two participating xwards and one out of service, table order descending in the bus, sgen / scaled load at the xward "
               "bus, enforce_q_lims with a gen at its limit): ratios and nodal balance at every bus",
         script="import sys\nfrom replaylib.distslack import main, main_only_reference_buses, main_xwards\n"
-               "for f in (main, main_only_reference_buses, main_xwards):\n    try:\n        f()\n    except SystemExit as e:\n        if e.code:\n            raise\n"))
+               "from replaylib import run_all\nrun_all(main, main_only_reference_buses, main_xwards)\n"))
 
 
 def classify(ob, model):
